@@ -35,8 +35,8 @@ EXTRA_POLICIES = {
 PROBES = {"C04": "all", "C05": "all", "C09": "some", "C07": "some"}
 
 
-def shards_for(prop: str, tier: str) -> List[Dict[str, Any]]:
-    return env_cfg_shards(tier, SCOPE[prop], HEAVY, prop=prop)
+def shards_for(prop: str, tier: str, seed: int = 0) -> List[Dict[str, Any]]:
+    return env_cfg_shards(tier, SCOPE[prop], HEAVY, prop=prop, seed=seed)
 
 
 class ModelMonitor(Monitor):
